@@ -372,6 +372,10 @@ class HTTP(BaseComponent):
                 res.body = value.value
                 self.fire(response(res))
             elif value.errors:
+                if req.handled:
+                    # answered with an error already (see _on_exception)
+                    return
+                req.handled = True
                 error = value.value
                 _etype, evalue, _traceback = error
                 if isinstance(evalue, RedirectException):
@@ -389,6 +393,9 @@ class HTTP(BaseComponent):
                 value.event = e
                 value.notify = True
         elif isinstance(value, tuple):
+            if req.handled:
+                return
+            req.handled = True
             _etype, evalue, _traceback = error = value
 
             if isinstance(evalue, RedirectException):
@@ -412,6 +419,11 @@ class HTTP(BaseComponent):
         etype, evalue, etraceback = args
         fevent = kwargs['fevent']
 
+        if isinstance(fevent, (request, response)):
+            # request_failure / response_failure answer these: one failure
+            # gets one error response
+            return
+
         if isinstance(fevent, response):
             res = fevent.args[0]
             req = res.request
@@ -424,6 +436,11 @@ class HTTP(BaseComponent):
             res = wrappers.Response(req, self._encoding, 500)
         else:
             return
+
+        if req.handled:
+            # the request has been answered with an error already
+            return
+        req.handled = True
 
         code = evalue.code if isinstance(evalue, HTTPException) else None
 
